@@ -209,3 +209,106 @@ def write_cases(path, cases):
     with open(path, 'w') as f:
         for c in cases:
             f.write('\n'.join(c) + '\n')
+
+# ------------------------------------------------------------------ reservoir
+EXTREME_WORDS = [0, (1 << 64) - 1, 1 << 63, (1 << 63) - 1, 1, 1 << 12, (1 << 12) - 1, 0xFFF, (1 << 64) - (1 << 12)]
+def gen_res(rng, n, tag='r'):
+    out = []
+    for c in range(n):
+        k = rng.choice([1, 1, 2, 3, 4, 5, 8, 16])
+        nmax = rng.choice([k, k + 1, 4 * k, 4 * k + 1, 4 * k + 2, 6 * k, 12 * k, 40 * k])
+        cfg = {'rngseed': rng.randrange(1 << 32)}
+        L = ['new 0 %d' % k]
+        pos = 0
+        style = rng.random()
+        live = {0}
+        for _ in range(nmax + rng.randrange(0, 3)):
+            i = 0
+            r = rng.random()
+            if r < 0.03 and pos > 0:
+                L.append('clear 0'); pos = 0; L.append('obs 0'); continue
+            if r < 0.05 and 1 not in live:
+                L.append('clone 0 1'); live.add(1); L.append('obs 1'); continue
+            if style < 0.35:
+                # scripted words: extreme values (all zeros / all ones / boundaries of the Lemire zone and of u)
+                L.append('RW ' + ' '.join(str(rng.choice(EXTREME_WORDS + [rng.randrange(1 << 64)])) for _ in range(rng.randrange(1, 4))))
+            L.append('add 0 %d' % (1000 + pos)); pos += 1
+            if k <= 8 or rng.random() < 0.2:
+                L.append('obs 0')
+        L.append('obs 0')
+        if 1 in live:
+            L.append('add 1 7'); L.append('obs 1'); L.append('obs 0')
+        out.append(case('%s%d' % (tag, c), 'res', cfg, L))
+    return out
+
+# ------------------------------------------------------------------ lossy counter
+import struct
+from fractions import Fraction
+def f64bits(x):
+    return struct.unpack('<Q', struct.pack('<d', x))[0]
+def safe_threshold(rng, eps, n):
+    """a threshold whose bound (th - eps) * n is not within 1e-6 of an integer (float ceil = exact ceil)"""
+    for _ in range(50):
+        th = rng.choice([0.0, 1.0, rng.random(), rng.random() * 0.3, rng.randrange(65) / 64.0])
+        v = (Fraction(th) - Fraction(eps)) * n
+        if abs(v - round(v)) > Fraction(1, 10 ** 6):
+            return th
+    return 0.7310585786300049
+def gen_lossy(rng, n, tag='l'):
+    out = []
+    for c in range(n):
+        L = []
+        if rng.random() < 0.6:
+            w = rng.choice([1, 2, 3, 3, 4, 5, 7, 10, 16])
+            L.append('new 0 %d' % w); eps = 1.0 / w
+        else:
+            eps = rng.choice([0.5, 0.25, 0.3, 0.1, 0.07, 0.9, 0.34, rng.uniform(0.02, 0.99)])
+            L.append('neweps 0 %d' % f64bits(eps))
+            import math
+            w = int(math.ceil(1.0 / eps))
+        alpha = rng.choice([2, 3, 4, 6, 12, 40])
+        style = rng.random()
+        cnt = 0
+        for t in range(rng.randrange(3, 60)):
+            r = rng.random()
+            if r < 0.03:
+                L.append('clear 0'); cnt = 0; L.append('obs 0'); continue
+            if r < 0.05:
+                L.append('clone 0 1'); L.append('obs 1'); continue
+            if style < 0.3:
+                # adversarial: a key's occurrences placed just after each pruning boundary
+                x = 0 if cnt % w == 0 else 1 + rng.randrange(alpha)
+            elif style < 0.6:
+                x = min(int(rng.paretovariate(1.2)) - 1, alpha)   # skewed
+            else:
+                x = rng.randrange(alpha)
+            L.append('add 0 %d' % x); cnt += 1
+            L.append('obs 0')
+            if rng.random() < 0.4:
+                L.append('query 0 %d' % f64bits(safe_threshold(rng, eps, cnt)))
+        out.append(case('%s%d' % (tag, c), 'lossy', {}, L))
+    return out
+
+# ------------------------------------------------------------------ CMSHeap
+def gen_heap(rng, n, tag='t'):
+    out = []
+    for c in range(n):
+        k = rng.choice([1, 1, 2, 2, 3, 4])
+        w = rng.choice([1, 1, 2, 3, 5, 8, 64, 1024])
+        d = rng.choice([1, 1, 2, 3, 4])
+        alpha = rng.choice([2, 3, 5, 8, 20])
+        L = ['new 0 %d %d %d' % (k, w, d)]
+        for t in range(rng.randrange(2, 50)):
+            r = rng.random()
+            if r < 0.03:
+                L.append('clear 0'); L.append('iter 0'); continue
+            if r < 0.06:
+                L.append('clone 0 1'); L.append('iter 1'); continue
+            x = min(int(rng.paretovariate(1.1)) - 1, alpha) if rng.random() < 0.5 else rng.randrange(alpha)
+            L.append('add 0 %d' % x); L.append('iter 0')
+        out.append(case('%s%d' % (tag, c), 'heap', {'hasher': 'sip'}, L))
+    return out
+
+GEN.update({'res': gen_res, 'lossy': gen_lossy, 'heap': gen_heap})
+QUICK.update({'res': 400, 'lossy': 500, 'heap': 500})
+THOROUGH.update({'res': 8000, 'lossy': 20000, 'heap': 20000})
